@@ -14,6 +14,7 @@ import (
 	"math/rand"
 	"os"
 	"runtime"
+	"strings"
 	"sync"
 	"sync/atomic"
 	"time"
@@ -275,10 +276,75 @@ var sizeLimits = []int{0, 0, 3, 10, 100, 2047, 2048, 2049, 4095, 4096, 4097, 819
 var countLimits = []int{0, 0, 1, 2, 3, 100, -1}
 
 // generate + execute one steered history (the generator looks at the ring layout to aim at the ring end).
+// bystander: a second Buffer used in the same history ("x:" operations), with its own model. Buffers are independent
+// objects: whatever happens to one (growth, Close with packets left, being dropped and replaced by a fresh instance)
+// must leave the contents of the other untouched.
+type bystander struct {
+	b *packetio.Buffer
+	m *model
+	// ghosts: earlier instances that were replaced while packets were left in them (typically closed ones); "x:g" reads
+	// from the oldest one: its packets must still be what was written, whatever the instances created later have done
+	ghosts []*bystander
+}
+
+func (x *bystander) exec(prop string, o op, i int, r *res.Result) *verdict {
+	k := strings.TrimPrefix(o.K, "x:")
+	if k == "g" {
+		for len(x.ghosts) > 0 && len(x.ghosts[0].m.q) == 0 {
+			x.ghosts = x.ghosts[1:]
+		}
+		if len(x.ghosts) == 0 {
+			return nil
+		}
+		g := x.ghosts[0]
+		r.Count("reads_from_replaced_instances", 1)
+		if v := exec(prop, g.b, g.m, op{K: "r", N: o.N}, i, r); v != nil {
+			v.key = "bystander:ghost:" + v.key
+			v.desc = "buffer instance that was replaced by a fresh one while packets were left in it: " + v.desc
+			return v
+		}
+		return nil
+	}
+	if k == "new" || x.b == nil {
+		if x.b != nil && len(x.m.q) > 0 {
+			x.ghosts = append(x.ghosts, &bystander{b: x.b, m: x.m})
+		}
+		x.b, x.m = packetio.NewBuffer(), &model{}
+		r.Count("bystander_instances", 1)
+		if k == "new" {
+			return nil
+		}
+	}
+	o.K = k
+	r.Count("bystander_ops", 1)
+	if v := exec(prop, x.b, x.m, o, i, r); v != nil {
+		v.key = "bystander:" + v.key
+		v.desc = "second buffer of the same history: " + v.desc
+		return v
+	}
+	return nil
+}
+
 func runHistory(prop string, rng *rand.Rand, r *res.Result, big bool) (*hist, *verdict) {
 	b := packetio.NewBuffer()
 	m := &model{}
 	h := &hist{}
+	by := &bystander{}
+	two := !big && rng.Intn(3) == 0
+	xop := func() op {
+		switch k := rng.Intn(20); {
+		case k < 10:
+			return op{K: "x:w", N: []int{0, 1, 7, 40, 300, 1200, 2040, 3000}[rng.Intn(8)], Fill: rng.Uint32()}
+		case k < 14:
+			return op{K: "x:r", N: []int{0, 16, 65535, 65535}[rng.Intn(4)]}
+		case k < 16:
+			return op{K: "x:g", N: 65535}
+		case k < 18:
+			return op{K: "x:close"}
+		}
+		return op{K: "x:new"}
+	}
+	var forced []op
 	nops := 100 + rng.Intn(400)
 	// profile: which packet sizes dominate
 	prof := rng.Intn(5)
@@ -291,6 +357,18 @@ func runHistory(prop string, rng *rand.Rand, r *res.Result, big bool) (*hist, *v
 		var o op
 		head, tail, capv, cnt := b.VerifState()
 		_ = head
+		if two && (len(forced) > 0 || rng.Intn(6) == 0) {
+			if len(forced) > 0 {
+				o, forced = forced[0], forced[1:]
+			} else {
+				o = xop()
+			}
+			h.Ops = append(h.Ops, o)
+			if v := by.exec(prop, o, i, r); v != nil {
+				return h, v
+			}
+			continue
+		}
 		k := rng.Intn(100)
 		if big && k >= 9 && k < 100 {
 			// write-heavy so that occupancy climbs to the 4 MiB cap (and beyond under a larger limit)
@@ -385,6 +463,10 @@ func runHistory(prop string, rng *rand.Rand, r *res.Result, big bool) (*hist, *v
 		if v := exec(prop, b, m, o, i, r); v != nil {
 			return h, v
 		}
+		if two && (o.K == "close" || o.K == "r" && rng.Intn(8) == 0) {
+			// right after a Close (packets may be left) or a read: a fresh instance elsewhere starts writing
+			forced = []op{{K: "x:new"}, {K: "x:w", N: 40, Fill: rng.Uint32()}, {K: "x:w", N: 1 + rng.Intn(900), Fill: rng.Uint32()}}
+		}
 		r.Max("max_occupancy_bytes", int64(m.size))
 		r.Max("max_ring_capacity", int64(capv))
 	}
@@ -396,13 +478,40 @@ func runHistory(prop string, rng *rand.Rand, r *res.Result, big bool) (*hist, *v
 			return h, v
 		}
 	}
+	for by.b != nil && len(by.m.q) > 0 {
+		o := op{K: "x:r", N: 65535}
+		h.Ops = append(h.Ops, o)
+		if v := by.exec(prop, o, len(h.Ops)-1, r); v != nil {
+			return h, v
+		}
+	}
+	for guard := 0; guard < 100000; guard++ {
+		for len(by.ghosts) > 0 && len(by.ghosts[0].m.q) == 0 {
+			by.ghosts = by.ghosts[1:]
+		}
+		if len(by.ghosts) == 0 {
+			break
+		}
+		o := op{K: "x:g", N: 65535}
+		h.Ops = append(h.Ops, o)
+		if v := by.exec(prop, o, len(h.Ops)-1, r); v != nil {
+			return h, v
+		}
+	}
 	return h, nil
 }
 
 func replayHist(prop string, h *hist, r *res.Result) *verdict {
 	b := packetio.NewBuffer()
 	m := &model{}
+	by := &bystander{}
 	for i, o := range h.Ops {
+		if strings.HasPrefix(o.K, "x:") {
+			if v := by.exec(prop, o, i, r); v != nil {
+				return v
+			}
+			continue
+		}
 		if v := exec(prop, b, m, o, i, r); v != nil {
 			return v
 		}
